@@ -121,7 +121,13 @@ LatchSameTwo == {P("latch2s", <<InS2, InR2, Mem("l", TL), La(mode, v, sr[1], sr[
                            <<Bin("==", S, Num(1)), Bin("!=", R, Num(0)), <<-3, 0, 1, 5>> >>}}
    \cup {P("latch2s", <<SIn("x", "signal-X", 0), SLet("Signal", "y", Bin("+", X, Num(5))), Mem("l", TL), La(mode, Num(1), Bin("<", X, Num(2)), Bin(">=", Ref("y"), Num(9))), Rd("o", "l")>>,
              <<-3, 0, 1, 2, 3, 4, 5, 6, 7, MaxI>>) : mode \in Modes}
-Latches == LatchTwo \cup LatchOne \cup LatchMore \cup LatchSameType \cup LatchSameTwo
+\* set / reset on ONE input, every combination of strict / inclusive bounds and relative position of the two constants (below, equal,
+\* above), in both directions: the conditions are disjoint, touch in one point, or overlap
+LatchBounds == {P("latch1b", <<SIn("x", "signal-X", 0), Mem("l", TL), La(mode, Num(1), sr[1], sr[2]), Rd("o", "l")>>, <<1, 2, 3, 4, 5>>) :
+                  mode \in Modes,
+                  sr \in {<<Bin(lo, X, Num(c[1])), Bin(hi, X, Num(c[2]))>> : lo \in {"<", "<="}, hi \in {">", ">="}, c \in {<<3, 3>>, <<3, 4>>, <<4, 3>>}}
+                     \cup {<<Bin(hi, X, Num(c[1])), Bin(lo, X, Num(c[2]))>> : lo \in {"<", "<="}, hi \in {">", ">="}, c \in {<<3, 3>>, <<3, 4>>, <<4, 3>>}}}
+Latches == LatchTwo \cup LatchOne \cup LatchMore \cup LatchSameType \cup LatchSameTwo \cup LatchBounds
 ASSUME PrintT(<<"NPROGS", Cardinality(Cells), Cardinality(Latches)>>)
 ASSUME JsonSerialize(IOEnv.GEN_OUT, SetToSeq(Cells \cup Latches))
 =============================================================================
